@@ -180,9 +180,11 @@ class Ctx:
         self.required_guards.update(names)
 
     def outcome(self, category: str, value):
-        self.outcomes.setdefault(category, set()).add(
-            value if isinstance(value, (str, int, float, bool, tuple)) else chash(value)
-        )
+        try:
+            hash(value)
+        except TypeError:
+            value = chash(value)
+        self.outcomes.setdefault(category, set()).add(value)
 
     # ---- running clauses -----------------------------------------------------------
     def run(self, clause: str, cases: list[dict], chunk: int | None = None):
@@ -283,7 +285,7 @@ class Ctx:
                     self.guard(g, n)
                 for cat, vals in res["outcomes"].items():
                     for v in vals:
-                        self.outcome(cat, tuple(v) if isinstance(v, list) else v)
+                        self.outcome(cat, chash(v) if isinstance(v, (list, dict)) else v)
                 all_fails += [(ch[i], sig, msg) for (i, sig, msg) in res["fails"]]
         seen_here = set()
         for idx, sig, msg in sorted(all_fails):
